@@ -58,6 +58,10 @@ type c05case struct {
 	// premerge: the branches are merged by an exclusive gateway BEFORE the inclusive join, which therefore has ONE
 	// incoming sequence flow carrying every token of the activation — it is still the join of that fork
 	premerge bool
+	// foreign: a parallel gateway in front of the inclusive fork sends a second token through a task Y straight to the
+	// inclusive JOIN: a token the fork activation did not produce arrives there before / between / after the fork's
+	// tokens (every order of answering Y and the branch tasks)
+	foreign bool
 }
 
 func c05cases(tier string) []c05case {
@@ -95,6 +99,14 @@ func c05cases(tier string) []c05case {
 						if c >= 2 && c <= 3 && early <= 0 && o < 2 {
 							cs = append(cs, c05case{c: c, defPos: d, truth: tr, early: early, order: o, premerge: true})
 						}
+						if c == 2 && early < 0 && act == 2 {
+							// (with Y there is one more pending task: 3! orders; `order` selects among them)
+							for o2 := 0; o2 < 6; o2++ {
+								if o == 0 {
+									cs = append(cs, c05case{c: c, defPos: d, truth: tr, early: early, order: o2, foreign: true})
+								}
+							}
+						}
 					}
 				}
 			}
@@ -112,7 +124,16 @@ func c05run(out *rec.Out, c c05case, rng *rec.Rng, stats map[string]int) {
 	z := g.Add("task", "Z", "")
 	en := g.Add("endEvent", "end", "")
 	g.Connect(st, a, nil)
-	g.Connect(a, fork, nil)
+	if c.foreign {
+		pf := g.Add("parallelGateway", "P", "")
+		y := g.Add("task", "Y", "")
+		g.Connect(a, pf, nil)
+		g.Connect(pf, fork, nil)
+		g.Connect(pf, y, nil)
+		g.Connect(y, join, nil)
+	} else {
+		g.Connect(a, fork, nil)
+	}
 	into := join
 	if c.premerge {
 		into = g.Add("exclusiveGateway", "M", "")
@@ -145,7 +166,10 @@ func c05run(out *rec.Out, c c05case, rng *rec.Rng, stats map[string]int) {
 	g.Connect(join, z, nil)
 	g.Connect(z, en, nil)
 
-	out.Begin("c05", c.c, c.defPos, c.truth, c.early, c.order, rec.B(c.premerge))
+	out.Begin("c05", c.c, c.defPos, c.truth, c.early, c.order, rec.B(c.premerge), rec.B(c.foreign))
+	if c.foreign {
+		stats["foreign_token_at_the_join"]++
+	}
 	defer out.End()
 	anyVars := map[string]any{}
 	for k, v := range vars {
